@@ -1,12 +1,17 @@
-(* C13 — every read is confined to the requested time window and signal type. Statements only. *)
-From Coq Require Import List ZArith NArith String Ascii Bool.
-From Qryn Require Import lib.Strs lib.CivilDate model.Sql model.SqlRender model.Logql model.LogqlPlan model.Scans proofs.ScansProofs.
+(* C13 — every read is confined to the requested time window and signal type. Statements only.
+
+   scans / scan_bounded / the oracle: model/Scans.v.   Planner model: model/LogqlPlan.v (tied to the Go
+   planners byte for byte on every run).   SQL semantics for window_semantic: model/SqlEval.v (C07, trusted). *)
+From Coq Require Import List ZArith NArith QArith String Ascii Bool.
+From Qryn Require Import lib.Strs lib.CivilDate model.Sql model.SqlRender model.SqlEval model.Logql model.LogqlPlan model.Scans
+  proofs.ScansProofs proofs.ScansPlanProofs proofs.ScansSemProofs.
 Import ListNotations.
 Open Scope Z_scope.
 
-(* The oracle evaluated on every recorded statement is exact: it accepts a statement iff every one of
-   its base-table reads meets the declarative demand (window bounds on data tables, a covering date
-   range on index tables, the type conjunct), for every table classification and every window. *)
+(* ---- the oracle run on every recorded statement is exact ------------------------------------------
+   it accepts a statement iff every one of its base-table reads meets the declarative demand (window
+   bounds on data tables, a covering date range on index tables, the type conjunct), for every table
+   classification and every window *)
 Theorem oracle_sound : forall info w s,
   every_scan_bounded_b info w s = true -> Forall (scan_bounded info w) (scans s).
 Proof. exact every_scan_bounded_b_sound. Qed.
@@ -17,9 +22,88 @@ Theorem oracle_complete : forall info w s,
 Proof. exact every_scan_bounded_b_complete. Qed.
 Print Assumptions oracle_complete.
 
-(* FormatFromDate: the index lower bound (UTC day of from - 30 min) is not after the stored day of any
-   row at or after `from`, for every writer zone not more than 30 minutes west of UTC *)
+(* ---- every_scan_bounded for the LogQL log-query planners -------------------------------------------
+   full strength: for every log query, finalisation flag and planner context (window, limit, direction,
+   table layout, table names classified as the schema has them), every base-table read of the statement
+   that Plan(script).Process(ctx) builds is bounded.  FALSE of the code: *)
+Theorem every_scan_bounded_refuted :
+  exists sel fin c p q st' p',
+    ctx_tables table_info c /\ plan_log sel fin = Some p /\ process p c pst0 = Some (q, st', p') /\
+    ~ Forall (scan_bounded table_info (win c)) (scans q).
+Proof.
+  destruct slf_refutes as [Hp [[st' [p' Hq]] Hn]].
+  exists slf_query, true, std_ctx, slf_plan, slf_select, st', p'.
+  split; [exact std_ctx_tables|]. split; [exact Hp|]. split; [exact Hq | exact Hn].
+Qed.
+Print Assumptions every_scan_bounded_refuted.
+
+(* the strongest true statements.  (a) Every query WITHOUT a label filter in front of its first parser
+   (no SimpleLabelFilterPlanner), any matchers, line filters, parsers (json with parameters, regexp),
+   label filters after a parser, drop, unwrap, any context: every read is bounded. *)
+Theorem every_scan_bounded_partial : forall info sel fin c p q st' p',
+  ctx_tables info c -> no_slf sel = true ->
+  plan_log sel fin = Some p -> process p c pst0 = Some (q, st', p') ->
+  Forall (scan_bounded info (win c)) (scans q).
+Proof. exact log_scans_bounded. Qed.
+Print Assumptions every_scan_bounded_partial.
+
+(* (b) EVERY log query: each read is bounded, or is the time_series read of a SimpleLabelFilterPlanner,
+   which is restricted to the fingerprints of another select of the same statement (itself covered) *)
+Theorem every_scan_confined : forall info sel fin c p q st' p',
+  ctx_tables info c ->
+  plan_log sel fin = Some p -> process p c pst0 = Some (q, st', p') ->
+  Forall (fun sc => scan_bounded info (win c) sc \/ fp_restricted sc) (scans q).
+Proof. exact log_scans_confined. Qed.
+Print Assumptions every_scan_confined.
+
+(* ---- FormatFromDate ------------------------------------------------------------------------------
+   the index lower bound (UTC day of from - 30 min) is not after the stored day of any row at or after
+   `from`, for every writer whose zone is not more than 30 minutes west of UTC *)
 Theorem from_day_covers : forall off from t,
   -1800 <= off -> from <= t -> from_day from <= writer_day off t.
 Proof. exact from_day_covers_zone. Qed.
 Print Assumptions from_day_covers.
+
+(* ... and not for every zone of the writer (C04 owns the writer-side date) *)
+Theorem from_day_covers_all_zones_refuted :
+  exists off from t, from <= t /\ ~ from_day from <= writer_day off t.
+Proof. destruct from_day_misses_western_writer as [from [t H]]. exists (-18000), from, t. exact H. Qed.
+Print Assumptions from_day_covers_all_zones_refuted.
+
+(* ---- window_semantic, relative to SqlEval ---------------------------------------------------------
+   a row that passes every conjunct of a timestamp-bounded scan lies inside the widened window *)
+Theorem window_semantic : forall re_match parse_float tie db w sc r ts,
+  ts_bounded w sc -> col_value sc "timestamp_ns" (sc_tsn sc) r ts ->
+  admitted re_match parse_float tie db sc r ->
+  w_lo_min w <= ts /\ ts <= w_hi_max w.
+Proof. exact admitted_in_window. Qed.
+Print Assumptions window_semantic.
+
+(* ... and carries the type of the API that was called, or 0 *)
+Theorem window_semantic_type : forall re_match parse_float tie db w sc r ty,
+  type_confined w sc -> col_value sc "type" ["type"%string] r ty ->
+  admitted re_match parse_float tie db sc r ->
+  ty = w_type w \/ ty = 0.
+Proof. exact admitted_type. Qed.
+Print Assumptions window_semantic_type.
+
+(* ... and no row inside the requested window is cut off by a timestamp conjunct *)
+Theorem window_semantic_complete : forall re_match parse_float tie db w sc r ts e,
+  (forall lo, has_bnd sc (TsLo lo) -> lo <= w_from w) -> (forall hi, has_bnd sc (TsHi hi) -> w_to w <= hi) ->
+  col_value sc "timestamp_ns" (sc_tsn sc) r ts -> w_from w <= ts < w_to w ->
+  List.In e (sc_conj sc) ->
+  (exists x, List.In x (classify sc e) /\ ((exists z, x = TsLo z) \/ (exists z, x = TsHi z))) ->
+  passes re_match parse_float tie db r e.
+Proof. exact window_row_passes_ts. Qed.
+Print Assumptions window_semantic_complete.
+
+(* ---- the hypotheses are met by non-trivial values ------------------------------------------------- *)
+Example partial_guard_met :
+  no_slf plain_query = true /\ plan_log plain_query true = Some plain_plan /\
+  process plain_plan cluster_ctx pst0 = plain_result /\
+  match plain_result with Some (q, _, _) => Nat.leb 3 (List.length (scans q)) | None => false end = true.
+Proof. exact plain_query_guard. Qed.
+Example tables_single_node : ctx_tables table_info std_ctx.
+Proof. exact std_ctx_tables. Qed.
+Example tables_cluster : ctx_tables table_info cluster_ctx.
+Proof. exact cluster_ctx_tables. Qed.
